@@ -2252,7 +2252,15 @@ def _run(ck, suds, proof_ok):
                "https; planted with marker text or missing) x entry points; random documents from the AST grammar "
                "(nested entities to depth 3, parameter entities to depth 2, recursive / undefined / unbalanced "
                "cases); SOAP replies and WSDL + imported XSD + imported WSDL with random DTD payloads through "
-               "Client(...) over a DocumentStore and over a transport.  distinct = distinct (entry point, document "
+               "Client(...) over a DocumentStore and over a transport, with foreign-namespace / misplaced import and "
+               "include look-alikes; multi-directory sites (relative include / import / wsdl:import chains across "
+               "directories, imports without a location, decoys served at every wrongly resolved location, at every "
+               "URL a namespace would give and at every location an earlier load used) loaded one after another in "
+               "this process, each judged against its own named closure (computed by an independent namespace-aware "
+               "parse and by the Coq loader model).  Every document in model-irrelevant surface variants (XML "
+               "declaration version / encoding / standalone yes|no|absent, BOM, comments, 70 KB padding), handed over "
+               "as bytes / bytearray / memoryview / str under suds://, http://, file:// and loopback URLs with decoy "
+               "content at the real location.  distinct = distinct (entry point, document "
                "bytes); non-trivial = the document names at least one external identifier")
 
 
